@@ -7,7 +7,7 @@ use crate::report::{par_run, Report};
 use crate::rng::Rng;
 use serde_json::json;
 
-pub const RULE: &str = "Constructor calls observed under catch_unwind: every single-period constructor for every period 0..=4096 (exhaustive), every multi-period constructor (SLOW 2 periods, MACD/PPO 3 periods) for all tuples over 0..=24 (exhaustive), boundary periods {2^31, 2^32, 2^53+1, usize::MAX-1, usize::MAX} in every period slot of the allocation-free indicators (EMA, ATR, RSI, KC, MACD, PPO, and SLOW's EMA period), sampled large periods up to 2^22 for windowed ones, multipliers {0,-2,1e300,NaN,-0.0,2.5,+inf,-inf,f64::MAX,f64::MIN,MIN_POSITIVE,5e-324,0.1}. Oracle: Err(InvalidParameter) iff some period argument is 0, else Ok, never a panic; period()/multiplier() (bitwise) and Display == NAME(params) immediately, after a stream of next calls, and after reset; Default::default() has the documented parameters and produces the same outputs as new(defaults) (1e-12 relative; bit-identity reported). Non-trivial: every (indicator, period tuple, multiplier) constructor call is a distinct case; the enumerated part is exhaustive.";
+pub const RULE: &str = "Constructor calls observed under catch_unwind: every single-period constructor for every period 0..=4096 (exhaustive), every multi-period constructor (SLOW 2 periods, MACD/PPO 3 periods) for all tuples over 0..=24 (exhaustive), boundary periods {2^31, 2^32, 2^53+1, usize::MAX-1, usize::MAX} in every period slot of the allocation-free indicators (EMA, ATR, RSI, KC, MACD, PPO, and SLOW's EMA period), sampled large periods up to 2^22 for windowed ones, multipliers {0,-2,1e300,NaN,-0.0,2.5,+inf,-inf,f64::MAX,f64::MIN,MIN_POSITIVE,5e-324,0.1}. Oracle: Err(InvalidParameter) iff some period argument is 0, else Ok, never a panic; period()/multiplier() (bitwise) and Display == NAME(params) immediately, after a stream of next calls, after reset, and on the instance's clone, restored copy and clone_from copy; Default::default() has the documented parameters and produces the same outputs as new(defaults) (1e-12 relative; bit-identity reported). Non-trivial: every (indicator, period tuple, multiplier) constructor call is a distinct case; the enumerated part is exhaustive.";
 
 const BOUNDARY: [usize; 5] = [1usize << 31, 1usize << 32, (1usize << 53) + 1, usize::MAX - 1, usize::MAX];
 const MULTS: [f64; 13] = [0.0, -2.0, 1e300, f64::NAN, -0.0, 2.5, f64::INFINITY, f64::NEG_INFINITY, f64::MAX, f64::MIN, f64::MIN_POSITIVE, 5e-324, 0.1];
@@ -27,7 +27,7 @@ fn violation(rep: &mut Report, p: &Params, class: &str, detail: String) {
 pub fn check_ctor(rep: &mut Report, p: &Params, exercise: bool) {
     rep.evaluations += 1;
     let any_zero = p.periods().iter().any(|x| *x == 0);
-    match Inst::try_new(p) {
+    match Inst::try_new_explicit(p) {
         Err(NewError::Panic(m)) => violation(rep, p, "ctor_panic", format!("{}::new({:?}, k={}) panicked: {}", p.kind.name(), p.periods(), p.k, m)),
         Err(NewError::Invalid(e)) => {
             if !any_zero {
@@ -79,6 +79,16 @@ pub fn check_ctor(rep: &mut Report, p: &Params, exercise: bool) {
                 check_meta(rep, &mut inst, "after a stream of next calls");
                 let _ = inst.reset();
                 check_meta(rep, &mut inst, "after reset");
+                // the indicator's life goes on in its copies: a clone, a copy restored from bytes and a used
+                // instance overwritten with clone_from (built with other periods) all answer as the original
+                for (which, when) in [(0usize, "on its clone"), (1, "on the copy restored from its serialized form"), (2, "on an instance assigned with clone_from")] {
+                    for i in 0..3 {
+                        let b = g.next();
+                        let _ = if p.kind.has_scalar() && i % 2 == 0 { inst.apply(&Op::NextF(b.c)) } else { inst.apply(&Op::NextBar(b)) };
+                    }
+                    inst.perturb(which);
+                    check_meta(rep, &mut inst, when);
+                }
                 rep.count("ctor.exercised_with_history");
             }
         }
@@ -200,7 +210,7 @@ fn run_defaults(ctx: &Ctx) -> Report {
                 continue;
             }
         };
-        let mut n = Inst::new(&p);
+        let mut n = Inst::try_new_explicit(&p).unwrap_or_else(|e| panic!("harness: {:?}", e));
         let want = p.expected_display();
         let got = d.display().unwrap_or_default();
         if got != want {
